@@ -6,7 +6,9 @@ membership from a value whose provenance includes a read from storage (or some s
 than the per-commit path re-applies configuration entries), not only RaftNodeConfig.cluster.initial_cluster;
 (c) the initial role (learner vs voter) is chosen from restored state, not only from the static
 configuration; (d) the live half: every committed Config entry reaches Membership::apply_config_change
-(Payload::Config arm of process_batch) and the roles are told (MembershipApplied) only after it.  Necessary conditions, not the whole behaviour: a sink / a load being reachable does not
+(Payload::Config arm of process_batch) and the roles are told (MembershipApplied) only after it; (e) the published view
+(MembershipSnapshot) is split into members / learners with `role == NodeRole::Learner` by every function that builds it
+(start/restart and after every applied change use the same predicate).  Necessary conditions, not the whole behaviour: a sink / a load being reachable does not
 show that the right bytes are written or read."""
 from .common import *
 from .helpers_r3 import *
@@ -145,3 +147,70 @@ def run(ctx):
             ctx.check("C28-d", "%s#MembershipApplied#after-apply" % fkey(ch), ok, "roles are notified only after the table change succeeded",
                       "MembershipApplied is sent without a preceding successful Membership::apply_config_change: a learner evaluates its promotion (and a leader rebuilds its voter "
                       "cache) against the old table", loc(mb, bi))
+
+
+# ---------------------------------------------------------------------------------------------- C28-e
+_run_abcd28 = run
+
+
+def run(ctx):
+    _run_abcd28(ctx)
+    published_view_uses_one_learner_predicate(ctx)
+
+
+def published_view_uses_one_learner_predicate(ctx):
+    """C28-e the membership VIEW a node publishes (MembershipSnapshot {members, learners}: watch_membership / the WatchMembership
+    RPC) is built at start / restart (RaftMembership::new) and after every applied change (notify_config_applied).  Both builders
+    must split the node table with the same predicate, and that predicate is `role == NodeRole::Learner`: every comparison of
+    NodeMeta.role with a named NodeRole constant inside a function that constructs a MembershipSnapshot tests Learner with ==
+    (a `role != Follower` classifies a node listed as Leader/Candidate in the config file as a learner in the view rebuilt at
+    restart - the view then differs from the one published before the restart and from the node's own table)."""
+    F = ctx.F
+    from .helpers_r3 import XSlice
+    builders = {}
+    for (b, bi, si, st) in all_agg_sites(F, "MembershipSnapshot", None, crates=("d_engine_server", "d_engine_core")):
+        if re.search(r"(_test|/tests?/|test_utils|mock)", b.file or ""):
+            continue
+        root_ = F.root_of[b.id]
+        # only functions that CLASSIFY nodes (they read NodeMeta.role); copies / conversions of an existing view are not builders
+        if not any(("NodeMeta", "role") in set((a.split("::")[-1], f) for (a, f) in fields_read(gb)) for gb in F.group_bodies(F.bodies[root_])):
+            continue
+        builders.setdefault(root_, (b, bi))
+    ctx.floor("C28-e", len(builders), 2, "functions that construct a MembershipSnapshot (RaftMembership::new, notify_config_applied)")
+    verdicts = {}
+    for root, (b0, bi0) in sorted(builders.items()):
+        tests = []
+        for gb in F.group_bodies(F.bodies[root]):
+            for bi, blk in enumerate(gb.blocks):
+                if blk.get("cleanup"):
+                    continue
+                for st in blk["st"]:
+                    rv = st.get("rv")
+                    if not rv or rv["k"] != "bin" or rv["op"] not in ("Eq", "Ne"):
+                        continue
+                    sa, sb = XSlice(F, gb).operand(rv["a"]), XSlice(F, gb).operand(rv["b"])
+                    for (x, y) in ((sa, sb), (sb, sa)):
+                        if x.has_field("NodeMeta", "role"):
+                            names = sorted(set(m.group(1) for src in y.sources if src[0] == "cname" for m in [re.search(r"NodeRole::(\w+)", src[1])] if m))
+                            if names:
+                                op = rv["op"]
+                                l = st["lhs"]["l"]
+                                for blk2 in gb.blocks:
+                                    for st2 in blk2["st"]:
+                                        rv2 = st2.get("rv")
+                                        if rv2 and rv2["k"] == "un" and rv2["op"] == "Not" and "p" in rv2["a"] and rv2["a"]["p"]["l"] == l:
+                                            op = "Ne" if op == "Eq" else "Eq"
+                                tests.append((tuple(names), op, gb, bi))
+        kinds = sorted(set((t[0], t[1]) for t in tests))
+        verdicts[root] = kinds
+        ok = bool(kinds) and all(k == (("Learner",), "Eq") for k in kinds)
+        ctx.check("C28-e", "%s#MembershipSnapshot#learners=role==Learner" % fkey(root), ok,
+                  "the published view splits the node table with role == NodeRole::Learner",
+                  "the membership view built here does not split members / learners with `role == NodeRole::Learner` (role tests found: %s): a node whose role is neither "
+                  "Follower nor Learner (the config file lists the current leader with role Leader) lands on the wrong side of the view rebuilt at restart"
+                  % [("%s %s" % ("==" if k[1] == "Eq" else "!=", "|".join(k[0]))) for k in kinds], loc(b0, bi0))
+    if len(set(map(str, verdicts.values()))) > 1:
+        ctx.bad("C28-e", "MembershipSnapshot#builders-agree", "the functions that build the published membership view use different role predicates: %s"
+                % dict((fkey(k), v) for k, v in verdicts.items()))
+    elif verdicts:
+        ctx.ok("C28-e", "MembershipSnapshot#builders-agree", "all %d builders of the published view use the same role predicate" % len(verdicts))
